@@ -118,3 +118,93 @@ pub open spec fn meta_ok(a: AV, s1: SV, mo: int, ms: int, po: int, ps: int) -> b
   &&& clear_of_list(s1.list, mo, po + ps)
   &&& clear_of_list(s1.list, mo, mo + ms)
 }
+
+// ---- top-level allocation results ------------------------------------------------------------------------------------
+
+/// fresh-space (bump) allocation of `total` bytes starting at the cursor: only the cursor and bytes above it change
+pub open spec fn bump_ok(s0: SV, s1: SV, total: int) -> bool {
+  s1.allocated == s0.allocated + total && s1.list == s0.list && s1.discarded == s0.discarded && s1.min_seg == s0.min_seg
+  && s1.sentinel == s0.sentinel && s1.writable == s0.writable && s1.lo == s0.lo
+}
+
+/// C03/C01/C10: result of alloc_bytes(size), size > 0, on a writable arena
+pub open spec fn alloc_bytes_ok(a: AV, s0: SV, s1: SV, size: u32, mo: int, ms: int, po: int, ps: int) -> bool {
+  if s0.allocated + size as int <= a.cap {
+    mo == s0.allocated && ms == size as int && po == mo && ps == size as int && bump_ok(s0, s1, size as int)
+  } else {
+    slow_ok(a, s0, s1, size, pick(s0.list, size, a.freelist), mo, ms, po, ps)
+  }
+}
+/// allocation fails iff fresh space is too small and the free-list policy finds no segment
+pub open spec fn alloc_fails(a: AV, s0: SV, fresh_total: int, slow_size: int) -> bool {
+  s0.allocated + fresh_total > a.cap && (slow_size > u32::MAX as int || pick(s0.list, slow_size as u32, a.freelist) == s0.list.len())
+}
+
+pub open spec fn pad_of<T>() -> int { size_of::<T>() as int + align_of::<T>() as int - 1 }
+
+/// C03: result of alloc::<T>() (size_of T > 0)
+pub open spec fn alloc_typed_ok<T>(a: AV, s0: SV, s1: SV, mo: int, ms: int, po: int, ps: int) -> bool {
+  let al = align_of::<T>() as int; let sz = size_of::<T>() as int;
+  let aligned = align_up(s0.allocated, al);
+  &&& ps == sz && po % al == 0
+  &&& if aligned + sz <= a.cap {
+        mo == s0.allocated && ms == aligned + sz - s0.allocated && po == aligned && bump_ok(s0, s1, aligned + sz - s0.allocated)
+      } else {
+        let k = pick(s0.list, pad_of::<T>() as u32, a.freelist);
+        slow_ok(a, s0, s1, pad_of::<T>() as u32, k, mo, ms, s0.list[k].0 as int + 8, pad_of::<T>()) && po == align_up(mo, al)
+      }
+}
+/// C03: result of alloc_aligned_bytes::<T>(extra) (size_of T > 0)
+pub open spec fn alloc_aligned_ok<T>(a: AV, s0: SV, s1: SV, extra: u32, mo: int, ms: int, po: int, ps: int) -> bool {
+  let al = align_of::<T>() as int; let sz = size_of::<T>() as int;
+  let aligned = align_up(s0.allocated, al);
+  &&& ps >= sz + extra as int && po % al == 0 && po + ps == mo + ms
+  &&& if aligned + sz + extra as int <= a.cap {
+        mo == s0.allocated && ms == aligned + sz + extra as int - s0.allocated && po == aligned && bump_ok(s0, s1, ms)
+      } else {
+        let k = pick(s0.list, (pad_of::<T>() + extra as int) as u32, a.freelist);
+        slow_ok(a, s0, s1, (pad_of::<T>() + extra as int) as u32, k, mo, ms, s0.list[k].0 as int + 8, pad_of::<T>() + extra as int) && po == align_up(mo, al)
+      }
+}
+
+// ---- release ------------------------------------------------------------------------------------------------------------
+
+/// the extent [offset, offset+size) handed to dealloc: either the null extent of a zero-sized handle, or a range
+/// that was handed out (inside the data area, below the cursor) and is not free already
+pub open spec fn extent_ok(a: AV, s: SV, offset: int, size: int) -> bool {
+  (offset == 0 && size == 0) || (size >= 0 && a.data_offset <= offset && offset + size <= s.allocated && clear_of_list(s.list, offset, offset + size))
+}
+
+/// C10/C20: release of [offset, offset+size)
+pub open spec fn dealloc_post(a: AV, s0: SV, s1: SV, offset: int, size: int, r: bool) -> bool {
+  if s0.allocated == offset + size {
+    r && s1 == (SV { allocated: offset, ..s0 })                                  // topmost allocation: cursor moves back
+  } else {
+    match a.freelist {
+      Freelist::None => r && s1 == (SV { discarded: s0.discarded + size, ..s0 }),                // never reused, only counted
+      _ => {
+        &&& r == seg_valid(s0, offset, size)
+        &&& r ==> s1.list == list_insert(s0.list, seg_node(offset, size), asc_of(a.freelist)) && s1.discarded == s0.discarded + 8
+        &&& !r ==> s1 == (SV { discarded: s0.discarded + (if offset == 0 || size == 0 { 0 } else { size }), ..s0 })   // too small: counted, never reused
+        &&& s1.allocated == s0.allocated && s1.min_seg == s0.min_seg && s1.writable == s0.writable && s1.lo == s0.lo
+      },
+    }
+  }
+}
+
+/// free(post) is contained in free(pre) plus the released extent
+pub open spec fn free_grows(s0: SV, s1: SV, lo: int, hi: int) -> bool {
+  forall|b: int| #[trigger] in_free(s1, b) ==> in_free(s0, b) || lo <= b < hi
+}
+
+// ---- rewind ---------------------------------------------------------------------------------------------------------------
+
+pub open spec fn clamp(x: int, lo: int, hi: int) -> int { if x < lo { lo } else if x > hi { hi } else { x } }
+/// C17: Start(n) = n, End(n) = capacity - n, Current(d) = allocated + d over the mathematical integers, clamped
+pub open spec fn rewind_target(a: AV, s: SV, pos: ArenaPosition) -> int {
+  clamp(match pos {
+    ArenaPosition::Start(n) => n as int,
+    ArenaPosition::End(n) => a.cap - n as int,
+    ArenaPosition::Current(d) => s.allocated + d as int,
+  }, a.data_offset, a.cap)
+}
